@@ -12,6 +12,10 @@ pm_c30: model driver for C30.  Strings travel as dot-separated decimal code poin
       index (0 = none; raises the index's max shard); buf = ImportCommand.BufferSize.
       -> `csv=<text> imp=<ok|err:..> dst=<row:col;..>` (dst = destination contents, sorted)
       #spec = same csv, imp=ok, dst = source contents                            (C30_roundtrip)
+  rtc <rk> <ck> <buf> <replicas> <bits>   the same round trip on a 3-node cluster with `replicas` copies (keyed fields:
+      the import goes through the coordinator); -> `csv=.. imp=.. rep=<shard>:<pairs>|<pairs>;.. stray=<n>`:
+      per destination shard the contents found on each of its owners (owner order by node id), and the
+      number of bits found on nodes that do not own their shard.  Model: delivered to all owners.
   imp <rk> <ck> <buf> <text>        import arbitrary CSV text into an empty field
       -> `imp=<ok|err:..> dst=<..>`
 -/
@@ -138,6 +142,23 @@ def step (_u : Unit) (ws : List String) : Unit × Ans :=
         let csv := "csv=" ++ encStr text
         ((), ans2 (csv ++ " imp=" ++ showImp err ++ " dst=" ++ encPairs (Spec.canon dst.contents))
                   (csv ++ " imp=ok dst=" ++ encPairs (Spec.expected src)) (classify rk ck src))
+    | _, _, _, _, _ => bad
+  | ["rtc", rk, ck, buf, reps, bits] =>
+    match bool? rk, bool? ck, buf.toNat?, reps.toNat?, decBits bits with
+    | some rk, some ck, some buf, some reps, some bits =>
+      match buildSource rk ck 0 bits with
+      | none => bad
+      | some src =>
+        let text := src.exportCSV
+        let (dst, err) := importCSV buf (src.emptyLike []) text
+        let showRep (l : List (Nat × List (List (Str × Str)))) : String :=
+          if l.isEmpty then "-" else ";".intercalate (l.map (fun p =>
+            toString p.1 ++ ":" ++ "|".intercalate (p.2.map (fun ps => (encPairs ps).replace ";" "+"))))
+        let m := "csv=" ++ encStr text ++ " imp=" ++ showImp err ++ " rep=" ++ showRep (Spec.perReplica reps dst) ++ " stray=0"
+        -- spec: the same, and the union over the shards is the source's contents
+        let okAll := Spec.canon dst.contents = Spec.expected src && err.isNone
+        ((), ans2 m (if okAll then m else "csv=" ++ encStr text ++ " imp=ok rep=<every owner holds the source pairs of its shard> stray=0")
+               (classify rk ck src))
     | _, _, _, _, _ => bad
   | ["imp", rk, ck, buf, t] =>
     match bool? rk, bool? ck, buf.toNat?, decStr t with
